@@ -128,6 +128,8 @@ static DirR lib_dir(const Rhumb& g, double a1, double o1, double azi, double s, 
   g.GenDirect(a1, o1, azi, s, Rhumb::LATITUDE | Rhumb::LONGITUDE | (unroll ? Rhumb::AREA | Rhumb::LONG_UNROLL : Rhumb::NONE), r.lat2, r.lon2u, r.S12);
   return r;
 }
+// the reference's own library calls are not part of a case's edge signature (it describes the implementation's execution)
+struct CovOff { bool was; CovOff() : was(mc::cov().on) { mc::cov().on = false; } ~CovOff() { mc::cov().on = was; } };
 template <class G> struct IsRhumb { static const bool value = false; };
 template <> struct IsRhumb<Rhumb> { static const bool value = true; };
 
@@ -170,7 +172,7 @@ template <class G> struct Model {
     MemoKey k{{mc::bits(a1), mc::bits(o1), mc::bits(a2), mc::bits(o2)}};
     auto it = memo->find(k);
     if (it != memo->end()) return it->second;
-    InvR r = lib_inv(*g, a1, o1, a2, o2);
+    InvR r; { CovOff off; r = lib_inv(*g, a1, o1, a2, o2); }
     if (memo->size() > 2000000) memo->clear();
     (*memo)[k] = r; return r;
   }
@@ -210,7 +212,7 @@ template <class G> struct Model {
       v.push_back(q); kind.push_back('P'); ops.push_back(o); return;
     }
     if (v.empty()) return;                                   // documented: AddEdge does nothing without a starting point
-    DirR r = lib_dir(*g, v.back().lat, v.back().lon, o.a, o.b, !polyline);
+    DirR r; { CovOff off; r = lib_dir(*g, v.back().lat, v.back().lon, o.a, o.b, !polyline); }
     Edge ed; ed.direct = true; ed.s = o.b; ed.S = r.S12; ed.azi2 = r.azi2; ed.nonuniq = ed.nearnonuniq = ed.overpole = ed.trig = false;
     ed.dlon = (fin(r.lon2u) && fin(v.back().lon)) ? (f128)r.lon2u - (f128)v.back().lon : (f128)0;
     ed.polecross = fin(r.lon2u) && fmodq(fabsq(ed.dlon), 360) == 180;
